@@ -58,6 +58,8 @@ type c11Case struct {
 	Explicit     []string   `json:"explicit,omitempty"`
 	Unused       []string   `json:"unused,omitempty"`
 	Users        []string   `json:"users,omitempty"`
+	Roots        []string   `json:"roots,omitempty"`
+	Index        int        `json:"index,omitempty"` // running number of the case (selects the probe statements)
 	Unrecognized []string   `json:"unrecognized,omitempty"`
 	Recursive    []string   `json:"recursive,omitempty"`
 	Uncalled     []string   `json:"uncalled,omitempty"`
@@ -127,6 +129,69 @@ var dupFamilies = [][]string{
 	{"acl c11_mixed { \"203.0.113.0\"/24; }\n", "table c11_mixed { \"k\": \"v\" }\n"},
 }
 
+// statements that are legal in some scopes only: the diagnostics of a helper subroutine show which scopes the
+// inference gave it (whatever they are, they must not depend on map order or declaration order)
+var scopedStmts = []string{
+	"  error 601;\n", "  restart;\n", "  esi;\n", "  synthetic \"c11\";\n",
+	"  set beresp.ttl = 10s;\n", "  set resp.http.C11 = \"1\";\n",
+	"  return (lookup);\n", "  return (deliver);\n", "  return (pass);\n", "  return (restart);\n", "  return;\n",
+}
+
+const scopedReturnsFrom = 6 // index of the first return form in scopedStmts
+
+// declarations and their users as separate permuted blocks: the user comes before or after what it uses
+// (every unused-* pass must give the same report either way).  use = statement added to vcl_recv.
+var useFamilies = []struct {
+	blocks []string
+	use    string
+}{
+	{[]string{"backend c11_m1 { .host = \"m1.example.com\"; }\n", "backend c11_m2 { .host = \"m2.example.com\"; }\n",
+		"director c11_dir random { { .backend = c11_m1; .weight = 1; } { .backend = c11_m2; .weight = 1; } }\n"}, ""},
+	{[]string{"backend c11_m3 { .host = \"m3.example.com\"; }\n",
+		"director c11_dir_used random { { .backend = c11_m3; .weight = 1; } }\n"}, "  set req.backend = c11_dir_used;\n"},
+	{[]string{"acl c11_used_acl { \"192.0.2.0\"/24; }\n"}, "  if (client.ip ~ c11_used_acl) {\n    set req.http.U = \"1\";\n  }\n"},
+	{[]string{"table c11_used_table { \"a\": \"b\" }\n"}, "  set req.http.T = table.lookup(c11_used_table, \"a\");\n"},
+	{[]string{"backend c11_used_be { .host = \"used.example.com\"; }\n"}, "  if (req.http.B) {\n    set req.backend = c11_used_be;\n  }\n"},
+}
+
+// probes: variable names that are matched by pattern (ratecounter.NAME.*, backend.NAME.*, director.NAME.*,
+// req.http.NAME:sub ...) with known, unknown and misspelled segments.  Whatever they are, linting terminates.
+var probeNames = []string{
+	"ratecounter.c11_prc.bucket.10s", "ratecounter.c11_prc.rate.1s", "ratecounter.c11_prc.rate.60s", "ratecounter.c11_prc.foo.10s",
+	"ratecounter.c11_prc.bucket.foo", "ratecounter.c11_prc.bucket", "ratecounter.c11_prc.rate", "ratecounter.c11_prc",
+	"ratecounter.c11_prc.bucket.10s.x", "ratecounter.nosuch.rate.1s", "ratecounter.nosuch", "ratecounter.c11_prc.Bucket.10s",
+	"backend.example.healthy", "backend.example.connections_open", "backend.example.connections_used", "backend.example.foo",
+	"backend.example.healthy.x", "backend.example", "backend.nosuch.healthy", "backend.c11_pdir.healthy", "backend.example.Healthy",
+	"director.c11_pdir.healthy", "director.c11_pdir.foo", "director.c11_pdir", "director.nosuch.healthy", "director.example.healthy",
+	"req.http.X:sub", "req.http.X:a:b", "req.http.X-Y:sub-key", "req.http.Cookie:a", "resp.http.X:sub", "bereq.http.X:sub",
+	"req.http.x.y", "req.http", "req.foo", "req", "beresp.http.X", "obj.ttl", "var.c11_undeclared", "var", "re.group.0", "re.group.99",
+	"re.group.x", "re.group", "tls.client.foo", "client.geo.nosuch", "client.as.number.x", "fastly_info.h2.nosuch", "fastly.ff.visits_this_service.x",
+	"c11_ptable", "c11_pacl", "nosuch_ident", "penaltybox.c11_ppb", "table.c11_ptable", "acl.c11_pacl", "geoip.nosuch", "now.sec.x", "time.start.nosuch",
+	"std.nosuch(req.http.A)", "table.lookup(nosuch_table, \"a\")", "table.lookup(c11_ptable, \"a\")", "table.contains(c11_pacl, \"a\")",
+	"ratelimit.check_rate(\"a\", nosuch_rc, 1, 10, 1, nosuch_pb, 1m)", "ratelimit.check_rate(\"a\", c11_prc, 1, 10, 1, c11_ppb, 1m)",
+	"ratelimit.ratecounter_increment(c11_ppb, \"a\", 1)", "ratelimit.penaltybox_has(c11_prc, \"a\")",
+}
+var probePrelude = "ratecounter c11_prc {}\npenaltybox c11_ppb {}\ntable c11_ptable { \"a\": \"b\" }\nacl c11_pacl { \"192.0.2.0\"/24; }\n" +
+	"director c11_pdir random { { .backend = example; .weight = 1; } }\n"
+var probeForms = []string{"  set req.http.P = %s;\n", "  if (%s) {\n    set req.http.P = \"1\";\n  }\n", "  set req.http.P = \"a\" %s;\n", "  if (client.ip ~ %s) {\n  }\n", "  set var.c11_i = %s;\n"}
+var probeParses = map[string]bool{}
+
+// probeStmt renders the k-th probe and keeps it only if the parser accepts it (parser totality is another property)
+func probeStmt(k int) string {
+	name := probeNames[k%len(probeNames)]
+	st := fmt.Sprintf(probeForms[(k/len(probeNames))%len(probeForms)], name)
+	ok, seen := probeParses[st]
+	if !seen {
+		_, err := parser.New(lexer.NewFromString("sub c11_probe {\n" + st + "}\n")).ParseVCL()
+		ok = err == nil
+		probeParses[st] = ok
+	}
+	if !ok {
+		return ""
+	}
+	return st
+}
+
 // passesBlocks returns the prelude (never permuted) and one block per subroutine declaration.
 func passesBlocks(c *c11Case, rng *rand.Rand) (string, []string) {
 	var pre strings.Builder
@@ -145,6 +210,7 @@ func passesBlocks(c *c11Case, rng *rand.Rand) (string, []string) {
 		}
 	}
 	pre.WriteString("backend example { .host = \"example.com\"; }\n")
+	pre.WriteString(probePrelude)
 	callees := map[string][]string{}
 	for _, e := range c.Edges {
 		callees[e[0]] = append(callees[e[0]], e[1])
@@ -157,6 +223,27 @@ func passesBlocks(c *c11Case, rng *rand.Rand) (string, []string) {
 	dup := ""
 	if len(c.Users) > 0 && rng.Intn(3) == 0 {
 		dup = c.Users[rng.Intn(len(c.Users))]
+	}
+	// one scope-restricted statement per user subroutine (as its last statement), the same in every permutation
+	scoped := map[string]string{}
+	for _, u := range c.Users {
+		// every scope-restricted statement but one, then one of the return forms
+		skip := rng.Intn(scopedReturnsFrom)
+		for k := 0; k < scopedReturnsFrom; k++ {
+			if k != skip {
+				scoped[u] += scopedStmts[k]
+			}
+		}
+		scoped[u] += scopedStmts[scopedReturnsFrom+rng.Intn(len(scopedStmts)-scopedReturnsFrom)]
+	}
+	// declaration / user families that take part
+	uses := ""
+	var useBlocks []string
+	for _, fam := range useFamilies {
+		if rng.Intn(2) == 0 {
+			useBlocks = append(useBlocks, fam.blocks...)
+			uses += fam.use
+		}
 	}
 	var blocks []string
 	// part: 0 = the only declaration; 1 / 2 = first / second declaration of a duplicated subroutine,
@@ -172,6 +259,11 @@ func passesBlocks(c *c11Case, rng *rand.Rand) (string, []string) {
 			b.WriteString("  #FASTLY RECV\n  set req.backend = example;\n")
 		case "vcl_deliver":
 			b.WriteString("  #FASTLY DELIVER\n")
+		case "vcl_fetch":
+			b.WriteString("  #FASTLY FETCH\n")
+		}
+		if name == "vcl_recv" {
+			b.WriteString(uses)
 		}
 		// two locals that are never read: the unused-variable pass ranges over a map
 		fmt.Fprintf(&b, "  declare local var.%s_one STRING;\n  declare local var.%s_two STRING;\n", name, name)
@@ -188,10 +280,25 @@ func passesBlocks(c *c11Case, rng *rand.Rand) (string, []string) {
 		if name == "vcl_recv" {
 			b.WriteString("  goto c11_skip;\n  set req.http.G = \"1\";\n  c11_skip:\n  return (lookup);\n")
 		}
+		if part != 2 {
+			b.WriteString(scoped[name])
+		}
 		b.WriteString("}\n")
 		return b.String()
 	}
 	blocks = append(blocks, sub("vcl_recv", 0), sub("vcl_deliver", 0))
+	for _, r := range c.Roots {
+		if r == "vcl_fetch" {
+			blocks = append(blocks, sub("vcl_fetch", 0))
+		}
+	}
+	blocks = append(blocks, useBlocks...)
+	// three probe statements in a subroutine of their own
+	probe := "sub c11_probe {\n  declare local var.c11_i INTEGER;\n"
+	for k := 0; k < 3; k++ {
+		probe += probeStmt(c.Index*3 + k)
+	}
+	blocks = append(blocks, probe+"}\n")
 	for _, u := range c.Users {
 		if u == dup {
 			blocks = append(blocks, sub(u, 1), sub(u, 2))
@@ -520,6 +627,7 @@ func c11Replay(args []string) int {
 	perms := fs.Int("perms", 4, "permutations of the subroutine declarations per program")
 	falco := fs.String("falco", "", "falco binary: include cases are also run through `falco lint`")
 	binEvery := fs.Int("bin-every", 0, "run every n-th include case (and every cyclic one if -bin-cyclic) through the binary")
+	freshEvery := fs.Int("fresh-every", 0, "every n-th case is also linted by a fresh process: the result must not depend on what the process linted before")
 	maxFailures := fs.Int("max-failures", 8, "stop after this many crash / hang observations")
 	binCyclic := fs.Bool("bin-cyclic", false, "run every include case with a reachable cycle through the binary")
 	fs.Parse(args) // nolint:errcheck
@@ -549,6 +657,7 @@ func c11Replay(args []string) int {
 			c.Seed = hx.Seed()*1000003 + int64(n)
 		}
 		c.Runs, c.Perms = *runs, *perms
+		c.Index = int(hx.Seed())*7919 + n
 		res := hx.CaseResult{ID: c.ID, Validated: true, Class: map[string]any{"kind": c.Kind, "place": c.Place}}
 		keep := n <= 2
 		payload, _ := json.Marshal(&c)
@@ -614,6 +723,20 @@ func c11Replay(args []string) int {
 				if !sameStrings(r.Base, p) {
 					mm("permutation-changes-diagnostics", map[string]any{"base": r.Base, "permuted": p, "index": i})
 					break
+				}
+			}
+			// requirement: the same program in a process with a different history reports the same
+			if *freshEvery > 0 && n%*freshEvery == 0 {
+				if fc, err := startChild(); err == nil {
+					fb, ff, _ := fc.ask(payload, 120*time.Second)
+					if ff == "" {
+						var fr childResult
+						if json.Unmarshal(fb, &fr) == nil && len(fr.Runs) > 0 && !sameStrings(fr.Runs[0].Diags, first.Diags) {
+							mm("history-dependent-diagnostics", map[string]any{"fresh_process": fr.Runs[0].Diags, "used_process": first.Diags})
+						}
+						fc.stop()
+					}
+					res.Class["fresh"] = true
 				}
 			}
 			// mechanism observables
